@@ -1,19 +1,8 @@
 //go:build verif
 
-// Contracts for the lvc verifier (comment-only file, compiled only with -tags verif).
+package polynomial
 
-package rgsw
-
-// ---- copy constructors (property C10) ----
-//@ copy Evaluator.ShallowCopy
-//@   copied Evaluator
-
-//@ copy Evaluator.WithKey
-//@   copied Evaluator
-
-//@ copy Encryptor.ShallowCopy
-//@   copied Encryptor
-//@   fresh buffQP
+// Contracts read by /verif/cmd/lvc (comment-only file).
 
 // ---------------------------------------------------------------------------------------------
 // Serialization, count level (property C08).  For every serializable type: WriteTo reports, on
@@ -24,19 +13,19 @@ package rgsw
 // call sites.  `nilable`: optional pointer fields of the inputs may be nil.
 // ---------------------------------------------------------------------------------------------
 
-//@ afunc Ciphertext.BinarySize
+//@ afunc PowerBasis.BinarySize
 //@   trusted definition: bsize(x) is what x.BinarySize() returns, assumed to be a function of the contents of x
-//@   ensures result == bsize(ct) && 0 <= result
+//@   ensures result == bsize(p) && 0 <= result
 
-//@ afunc Ciphertext.WriteTo
+//@ afunc PowerBasis.WriteTo
 //@   property C08
 //@   nilable
 //@   gset pending(w) = *
-//@   ensures implies(isnil(err), n == announced(ct))
+//@   ensures implies(isnil(err), n == announced(p))
 //@   ensures implies(isnil(err), pending(w) == 0)
 
-//@ afunc Ciphertext.ReadFrom
+//@ afunc PowerBasis.ReadFrom
 //@   property C08
 //@   nilable
-//@   havoc ct
-//@   ensures implies(isnil(err), n == announced(ct))
+//@   havoc p
+//@   ensures implies(isnil(err), n == announced(p))
